@@ -32,6 +32,7 @@ import (
 	providertypes "github.com/sentinel-official/hub/v12/x/provider/types"
 	sessiontypes "github.com/sentinel-official/hub/v12/x/session/types"
 	subscriptiontypes "github.com/sentinel-official/hub/v12/x/subscription/types"
+	swaptypes "github.com/sentinel-official/hub/v12/x/swap/types"
 )
 
 var r *rand.Rand
@@ -238,13 +239,12 @@ func main() {
 				fn := []string{"node.NodeForInactiveAtKey", "subscription.SubscriptionForInactiveAtKey", "subscription.PayoutForNextAtKey",
 					"session.SessionForInactiveAtKey", "mint.InflationKey", "subscription.AllocationKey", "session.SessionForAllocationKey",
 					"subscription.PayoutForAccountByNodeKey", "plan.PlanForProviderKey", "node.NodeForPlanKey", "deposit.DepositKey",
-					"node.ActiveNodeKey", "node.InactiveNodeKey", "provider.ActiveProviderKey", "provider.InactiveProviderKey", "plan.ActivePlanKey"}[r.Intn(16)]
+					"node.ActiveNodeKey", "node.InactiveNodeKey", "provider.ActiveProviderKey", "provider.InactiveProviderKey", "plan.ActivePlanKey", "swap.SwapKey"}[r.Intn(17)]
 				if r.Intn(2) == 0 {
 					a = a[:1+r.Intn(min(len(a), 6))] // short addresses as well
 				}
 				emit(fmt.Sprintf("key f=%s t=%s a=%s b=%s i=%d j=%d", fn, t.String(), hx(a), hx(b), i, j), try(func() string {
-					var k []byte
-					build := func(a, b []byte, i, j uint64) []byte {
+					build := func(tm time.Time, a, b []byte, i, j uint64) []byte {
 						switch fn {
 						case "node.ActiveNodeKey":
 							return nodetypes.ActiveNodeKey(a)
@@ -256,39 +256,37 @@ func main() {
 							return providertypes.InactiveProviderKey(a)
 						case "plan.ActivePlanKey":
 							return plantypes.ActivePlanKey(i)
+						case "swap.SwapKey":
+							return swaptypes.SwapKey(swaptypes.BytesToHash(a))
+						case "node.NodeForInactiveAtKey":
+							return nodetypes.NodeForInactiveAtKey(tm, a)
+						case "subscription.SubscriptionForInactiveAtKey":
+							return subscriptiontypes.SubscriptionForInactiveAtKey(tm, i)
+						case "subscription.PayoutForNextAtKey":
+							return subscriptiontypes.PayoutForNextAtKey(tm, i)
+						case "session.SessionForInactiveAtKey":
+							return sessiontypes.SessionForInactiveAtKey(tm, i)
+						case "mint.InflationKey":
+							return minttypes.InflationKey(tm)
+						case "subscription.AllocationKey":
+							return subscriptiontypes.AllocationKey(i, a)
+						case "session.SessionForAllocationKey":
+							return sessiontypes.SessionForAllocationKey(i, a, j)
+						case "subscription.PayoutForAccountByNodeKey":
+							return subscriptiontypes.PayoutForAccountByNodeKey(a, b, i)
+						case "plan.PlanForProviderKey":
+							return plantypes.PlanForProviderKey(a, i)
+						case "node.NodeForPlanKey":
+							return nodetypes.NodeForPlanKey(i, a)
+						case "deposit.DepositKey":
+							return deposittypes.DepositKey(a)
 						}
 						return nil
 					}
-					if k1 := build(a, b, i, j); k1 != nil {
-						// a key must still be what it was after another key of the same kind has been built
-						_ = build(b, a, j, i)
-						return "ok " + hx(k1)
-					}
-					switch fn {
-					case "node.NodeForInactiveAtKey":
-						k = nodetypes.NodeForInactiveAtKey(tm, a)
-					case "subscription.SubscriptionForInactiveAtKey":
-						k = subscriptiontypes.SubscriptionForInactiveAtKey(tm, i)
-					case "subscription.PayoutForNextAtKey":
-						k = subscriptiontypes.PayoutForNextAtKey(tm, i)
-					case "session.SessionForInactiveAtKey":
-						k = sessiontypes.SessionForInactiveAtKey(tm, i)
-					case "mint.InflationKey":
-						k = minttypes.InflationKey(tm)
-					case "subscription.AllocationKey":
-						k = subscriptiontypes.AllocationKey(i, a)
-					case "session.SessionForAllocationKey":
-						k = sessiontypes.SessionForAllocationKey(i, a, j)
-					case "subscription.PayoutForAccountByNodeKey":
-						k = subscriptiontypes.PayoutForAccountByNodeKey(a, b, i)
-					case "plan.PlanForProviderKey":
-						k = plantypes.PlanForProviderKey(a, i)
-					case "node.NodeForPlanKey":
-						k = nodetypes.NodeForPlanKey(i, a)
-					case "deposit.DepositKey":
-						k = deposittypes.DepositKey(a)
-					}
-					return "ok " + hx(k)
+					k1 := build(tm, a, b, i, j)
+					// a key must still be what it was after another key of the same kind has been built
+					_ = build(tm.Add(time.Second), b, a, j, i)
+					return "ok " + hx(k1)
 				}))
 				continue
 			}
